@@ -124,3 +124,40 @@ def rule_kinds(rules):
         if k not in out:
             out.append(k)
     return out
+
+
+def stack_peak(tokens, h0):
+    """highest stack height while running the instruction list from height h0 (a deeper start is assumed when an
+    instruction needs more than is there)"""
+    import gen
+    h = peak = h0
+    for t in tokens:
+        p, q = gen.arity(t)
+        if p > h:
+            peak += p - h
+            h = p
+        h += q - p
+        peak = max(peak, h)
+    return peak
+
+
+def bounds_stack_classes(raw):
+    """class keys for a specification whose published stack bound is unusable (C16): the original sub-block itself
+    rises above max_sk_sz, or two loads of the block were unified into one instruction (its value then has to be
+    duplicated, which the bound taken from the original block does not allow for)"""
+    import gen
+    toks = gen.tokens(raw.get("original_instrs", ""))
+    out = []
+    has_store = any(t.split()[0] in ("MSTORE", "MSTORE8", "SSTORE") for t in toks)
+    try:
+        # only for blocks without stores and without rules: the stack need of store operands is estimated by a separate
+        # part of compute_vars, and a wrong estimate there must stay reportable
+        if not has_store and not raw.get("rules") and stack_peak(toks, len(raw.get("src_ws", []))) > int(raw.get("max_sk_sz", 0)):
+            out.append("bounds|max_sk_sz below the peak of the original sub-block")
+    except Exception:
+        pass
+    nload_block = sum(1 for t in toks if t.split()[0] in ("MLOAD", "SLOAD"))
+    nload_sfs = sum(1 for u in raw.get("user_instrs", []) if u.get("disasm") in ("MLOAD", "SLOAD"))
+    if nload_sfs < nload_block and not raw.get("rules"):
+        out.append("bounds|max_sk_sz after two loads were unified")
+    return out
